@@ -210,6 +210,7 @@ theorem apply_holdings (s : State) (p : Prim) (c : Coin) (hok : p.ok s = true) :
     split <;> split <;> omega
   | useCheck h => simp [Prim.apply, holdings_def, Prim.dHold]
   | setCoinOwner sym a => simp [Prim.apply, holdings_def, Prim.dHold]
+  | bumpVersion c' v => simp [Prim.apply, holdings_def, Prim.dHold]
   | note t => simp [Prim.apply, holdings_def, Prim.dHold]
 
 def sideTotal (s : State) : Int := totalReserve s + totalAccum s + s.slashed + s.rewardsPool
@@ -255,6 +256,11 @@ theorem apply_volume (s : State) (p : Prim) (c : Coin) (hok : p.ok s = true) :
   | delOrder o => simp [Prim.apply, volumeOf, Prim.dVol]
   | fillOrder o d0 d1 => simp [Prim.apply, volumeOf, Prim.dVol]
   | useCheck h => simp [Prim.apply, volumeOf, Prim.dVol]
+  | bumpVersion c' v =>
+    simp only [Prim.apply, volumeOf, Prim.dVol, sumBy_updFirst, updDelta]
+    cases findFirst (fun x => x.id == c') s.coins with
+    | none => simp
+    | some ci => simp
   | note t => simp [Prim.apply, volumeOf, Prim.dVol]
 
 theorem apply_side (s : State) (p : Prim) (hok : p.ok s = true) :
@@ -298,6 +304,11 @@ theorem apply_side (s : State) (p : Prim) (hok : p.ok s = true) :
   | delOrder o => simp [Prim.apply, sideTotal, totalReserve, totalAccum, Prim.dSide]
   | fillOrder o d0 d1 => simp [Prim.apply, sideTotal, totalReserve, totalAccum, Prim.dSide]
   | useCheck h => simp [Prim.apply, sideTotal, totalReserve, totalAccum, Prim.dSide]
+  | bumpVersion c' v =>
+    simp only [Prim.apply, sideTotal, totalReserve, totalAccum, Prim.dSide, sumBy_updFirst, updDelta]
+    cases findFirst (fun x => x.id == c') s.coins with
+    | none => simp
+    | some ci => simp
   | note t => simp [Prim.apply, sideTotal, totalReserve, totalAccum, Prim.dSide]
 
 theorem apply_emission (s : State) (p : Prim) : (p.apply s).emission = s.emission + p.dEmission := by
